@@ -270,6 +270,9 @@ func totalLine(line string) string {
 		defer func() {
 			if r := recover(); r != nil {
 				class = "PANIC:parse:" + hexs(firstLine(fmt.Sprint(r)))
+				if os.Getenv("VERIF_TRACE") != "" {
+					os.Stderr.Write(debug.Stack())
+				}
 			}
 		}()
 		_, soft, hard := hms.Parse(text, c.file)
